@@ -227,8 +227,18 @@ def rule_near(ctx):
     c = sel[0]
     key = kwarg(c, "key")
     lam = key if isinstance(key, ast.Lambda) else None
+    if lam is None and isinstance(key, ast.Name):
+        d_ = unique_def(gpm, key.id)
+        if isinstance(d_, ast.Lambda):
+            lam = d_
+        else:
+            nf = [f for f in p.nested_functions(gpm) if f.name == key.id]
+            if nf:
+                rets_ = [r for r in walk_no_nested(nf[0]) if isinstance(r, ast.Return) and r.value is not None]
+                if len(rets_) == 1:
+                    lam = ast.Lambda(args=nf[0].args, body=rets_[0].value)
     if lam is None:
-        raise Inconclusive("C04.NEAR: key of the selection is not a lambda")
+        raise Inconclusive("C04.NEAR: key of the selection is neither a lambda nor a single-return local function")
     ks = src(lam.body)
     has_len = any(isinstance(x, ast.Call) and isinstance(x.func, ast.Name) and x.func.id == "len" for x in ast.walk(lam.body))
     negated = isinstance(lam.body, ast.UnaryOp) and isinstance(lam.body.op, ast.USub)
@@ -249,7 +259,7 @@ def rule_near(ctx):
            "the selection is not restricted to ancestor entries (is_parent)", construct="near:no is_parent filter")
     over_all = cand is not None and any(isinstance(x, ast.Attribute) and x.attr == "permissions" for x in ast.walk(cand))
     ctx.ob("C04.NEAR", c, "candidates are drawn from all of self.permissions", over_all, "the selection does not range over self.permissions", construct="near:not over permissions")
-    dflt = kwarg(c, "default")
+    dflt = expand(p, kwarg(c, "default"), gpm) if kwarg(c, "default") is not None else None
     ok = isinstance(dflt, ast.Call) and last_attr(dflt.func) == "Permission" and not dflt.args and not dflt.keywords
     ctx.ob("C04.NEAR", c, "the default (no entry applies) is the permissive Permission()", ok,
            f"default of the selection is `{src(dflt) if dflt is not None else None}`, not the permissive Permission()", construct="near:default")
@@ -265,7 +275,7 @@ def rule_near(ctx):
     ip = p.method("Permission", "is_parent")
     body_ok = any(isinstance(t, ast.Try) and any(isinstance(x, ast.Call) and isinstance(x.func, ast.Attribute) and x.func.attr == "relative_to"
                                                   and src(x.func.value) == [a.arg for a in ip.args.args][1] and [src(z) for z in x.args] == ["self.path"] for s in t.body for x in ast.walk(s))
-                  and any(isinstance(r, ast.Return) and isinstance(r.value, ast.Constant) and r.value.value is True for s in t.body for r in ast.walk(s))
+                  and any(isinstance(r, ast.Return) and isinstance(r.value, ast.Constant) and r.value.value is True for s in t.body + t.orelse for r in ast.walk(s))
                   and any(isinstance(r, ast.Return) and isinstance(r.value, ast.Constant) and r.value.value is False for h in t.handlers for s in h.body for r in ast.walk(s))
                   for t in walk_no_nested(ip)) or any(isinstance(x, ast.Call) and isinstance(x.func, ast.Attribute) and x.func.attr == "is_relative_to" for x in ast.walk(ip))
     ctx.ob("C04.NEAR", ip, "is_parent(other) is success of other.relative_to(self.path)", body_ok, "is_parent is no longer `other.relative_to(self.path)` success", construct="is_parent form")
